@@ -173,7 +173,14 @@ def _envelope_plans():
             # messages addressed to another running order, unknown references, duplicates: whatever warns or fails on the way
             [('RunningOrderReplace', B.ro_replace([X], message_id='20', ro_id='OTHER-RO')), ('StorySend', B.story_send('ZZ', [B.p('x')], message_id='21')),
              ('StoryInsert', B.story_insert('X', [X], message_id='22')), ('RunningOrderReplace', B.ro_replace([X], message_id='23', ro_id=B.BLANK)),
-             ('StoryDelete', B.story_delete(['X', 'ZZ'], message_id='24'))]]
+             ('StoryDelete', B.story_delete(['X', 'ZZ'], message_id='24'))],
+            # a newsroom system sends a story again whenever it is saved: the same message, unchanged, under new message IDs
+            [('StorySend', B.story_send('A', [B.p('sent'), B.item('n1')], message_id='20')), ('StorySend', B.story_send('A', [B.p('sent'), B.item('n1')], message_id='21')),
+             ('StorySend', B.story_send('A', [B.p('sent'), B.item('n1')], message_id='22')), ('StoryReplace', B.story_replace('B', [X], message_id='23')),
+             ('StoryReplace', B.story_replace('X', [X], message_id='24')), ('RunningOrderReplace', B.ro_replace([X], message_id='25')),
+             ('RunningOrderReplace', B.ro_replace([X], message_id='26')), ('MetaDataReplace', B.metadata_replace([E('roSlug', text='same')], message_id='27')),
+             ('MetaDataReplace', B.metadata_replace([E('roSlug', text='same')], message_id='28')), ('StorySend', B.story_send('X', [B.item('x1'), B.p('text & more')], message_id='29')),
+             ('StorySend', B.story_send('X', [B.item('x1'), B.p('text & more')], message_id='30')), ('RunningOrderEnd', B.ro_delete(message_id='31'))]]
     out = []
     for v in variants:
         for sq in seqs:
@@ -358,11 +365,18 @@ def run_c14(tier, seed):
                 with _w.catch_warnings():
                     _w.simplefilter('error', _exc.MosRoMgrWarning)
                     try:
-                        ro + mo
+                        ret_ = ro + mo
                     except Exception:  # noqa: BLE001
-                        pass
+                        ret_ = ro
             else:
-                impl.add(ro, mo, via=via)
+                ret_ = None if impl.add(ro, mo, via=via)['err'] == 'crash:ReturnedOtherObject' else ro
+            if ret_ is not ro:
+                # `ro += msg` is the documented way to merge: what the merge hands back IS the running order of the next
+                # state, and it must be the running order (anything else does not serialise to one)
+                oc.failing.append({'kind': 'roundtrip', 'label': f'history {kind} seed={hseed} step {k} ({cls}, via {via})', 'state_has_cr': False,
+                                   'live_history': {'ro_text': ro_text, 'script': list(script)}, 'text': msg_text,
+                                   'spec': 'the merge handed back something that is not the running order it was given: after `ro += msg` '
+                                           'there is no running order to serialise'})
             tree = TJ.to_tree(ro.xml)
             # a message that is NOT addressed to this running order (its roID differs from the running order's at that
             # moment) may bring its own ID along (roReplace, roMetadataReplace carry a roID child): the claim about the
@@ -444,11 +458,13 @@ def replay(pid, fl):
                 with _w.catch_warnings():
                     _w.simplefilter('error', _exc.MosRoMgrWarning)
                     try:
-                        ro + objects[st['obj']]
+                        if (ro + objects[st['obj']]) is not ro:
+                            oc.failing.append({'spec': 'the merge handed back something that is not the running order'})
                     except Exception:  # noqa: BLE001
                         pass
             else:
-                impl.add(ro, objects[st['obj']], via=st['via'])
+                if impl.add(ro, objects[st['obj']], via=st['via'])['err'] == 'crash:ReturnedOtherObject':
+                    oc.failing.append({'spec': 'the merge handed back something that is not the running order'})
     else:
         docs = fl['history']
         ro = impl.load(docs[0])
